@@ -219,5 +219,9 @@ async fn renew_certificate(
 			certificate.warn(&e.message);
 		}
 	};
+	if !is_success {
+		// A failed attempt is followed by a pause: a certificate that keeps failing must not hammer the CA.
+		sleep(Duration::from_secs(backoff[0])).await;
+	}
 	(certificate, account_s.clone(), endpoint_s.clone())
 }
